@@ -163,10 +163,6 @@ theorem fit_ok {ops : Ops α τ} {s s' : Opt α} {e : Fit α τ} (h : fit ops s 
           right; left
           exact ⟨t, fb, hp, hy, hcond⟩
 
-/-- the state `_tell` is in before it decides whether to fit -/
-def told1 (s : Opt α) (xs : List (α × Obj)) : Opt α :=
-  { s with told := s.told ++ xs, nInit := s.nInit - (nonFail xs : Nat), cache := none }
-
 theorem tellCore_ok {ops : Ops α τ} {s s' : Opt α} {xs : List (α × Obj)} {e : Fit α τ}
     (h : tellCore ops s xs e = .ok s') :
     (((told1 s xs).nInit ≤ 0 ∧ (told1 s xs).dummy = false) ∧ fit ops (told1 s xs) e = .ok s') ∨
@@ -188,10 +184,6 @@ theorem tell_ok {ops : Ops α τ} {s s' : Opt α} {xs : List (α × Obj)} {e : F
   · rename_i hc
     exact ⟨by simpa using hc, h⟩
   · cases h
-
-/-- the fresh optimizer `copy()` builds before it is told the history -/
-def copy0 (s : Opt α) : Opt α :=
-  { s with nInit := s.nInit0, told := [], nextX := none, nextFrom := [], last := none, cache := none }
 
 theorem copy_ok {ops : Ops α τ} {s c : Opt α} {e : Fit α τ} (h : copy ops s e = .ok c) :
     (s.told.isEmpty = true ∧ c = copy0 s) ∨
